@@ -312,7 +312,9 @@ def serialize_to_xml(elements: Iterable[Any],
                 # ElementTree writes U+000D raw in character data and parsers turn it into U+000A:
                 # mark it in a copy and write the character reference after serialization
                 elem = deepcopy(elem)
-                used = {c for e in elem.iter() for t in (e.text, e.tail, *e.attrib.values()) if t for c in t}
+                used = {c for e in elem.iter()
+                        for t in (e.text, e.tail, e.tag, *e.attrib.keys(), *e.attrib.values())
+                        if isinstance(t, str) for c in t}
                 cr_mark = next(chr(c) for c in range(0xE000, 0xF8FF) if chr(c) not in used)
                 for e in elem.iter():
                     if e.tail:
